@@ -14,7 +14,9 @@ def sh(cmd): return subprocess.run(cmd, shell=True, stdout=subprocess.PIPE, stde
 assert sh("git -C /repo status --porcelain --untracked-files=no").stdout.strip() == "", "/repo has local modifications"
 for rel in ids:
     prop = rel.split("/")[0]; extra = sys.argv[1:]
-    check_props = [prop]
+    mp = os.path.join(S, rel, "meta.json")
+    check_props = (json.load(open(mp)).get("check_with") if os.path.exists(mp) else None) or [prop]
+    prop = check_props[0]
     patch = os.path.join(S, rel, "patch.diff")
     if os.path.exists(os.path.join(S, rel, "patch_head.diff")):   # same change re-based onto the repaired tree
         patch = os.path.join(S, rel, "patch_head.diff")
@@ -26,7 +28,7 @@ for rel in ids:
         r = sh("cd %s && ./vcheck %s %s" % (HERE, prop, tier))
         viol = [l for l in r.stdout.splitlines() if l.startswith("VIOLATION")]
         sig = [l.strip() for l in r.stdout.splitlines() if l.strip().startswith("signature=")]
-        results[rel] = dict(applies=True, tier=tier, exit=r.returncode, detected=(r.returncode == 1 and bool(viol)), first=(sig[0][:300] if sig else ""), wall_s=round(time.time() - t0, 1))
+        results[rel] = dict(applies=True, tier=tier, checked_with=prop, exit=r.returncode, detected=(r.returncode == 1 and bool(viol)), first=(sig[0][:300] if sig else ""), wall_s=round(time.time() - t0, 1))
         print("%-7s %-8s exit=%d %s  %s" % (rel, "DETECTED" if results[rel]["detected"] else "MISSED", r.returncode, "%.0fs" % (time.time() - t0), (sig[0][:160] if sig else r.stdout.strip().splitlines()[-1][:160] if r.stdout.strip() else "")), flush=True)
     finally:
         sh("git -C /repo checkout -- .")
